@@ -332,21 +332,28 @@ func H_C08_midskip() {
 	vxWriteFile(dir+"/legacy.snap", vxFrame("TestOld - 1", "stale custom-named"))
 	c := WithConfig(Dir(dir), Filename("f_test"), Update(false))
 	tm := vxNewT("TestM")
-	c.MatchSnapshot(tm, "one")
 	midSkip := vxrt.Bool("TestM-skips-after-its-first-snapshot")
+	wrapper := 0
 	if midSkip {
-		switch vxrt.Choice("wrapper", 3) {
-		case 0:
-			Skip(tm, "not today")
-		case 1:
-			Skipf(tm, "not %s", "today")
-		default:
-			SkipNow(tm)
-		}
-	} else {
-		c.MatchSnapshot(tm, "two")
+		wrapper = vxrt.Choice("wrapper", 3)
 	}
-	tm.end()
+	// the body runs on a goroutine of its own and a skip ends it there, as with a real testing.T
+	vxRunTest(tm, func() {
+		c.MatchSnapshot(tm, "one")
+		if midSkip {
+			switch wrapper {
+			case 0:
+				Skip(tm, "not today")
+			case 1:
+				Skipf(tm, "not %s", "today")
+			default:
+				SkipNow(tm)
+			}
+			vxrt.Assert(false, "setup:skip-ends-the-test-body")
+		} else {
+			c.MatchSnapshot(tm, "two")
+		}
+	})
 	if vxrt.Bool("an-unrelated-test-skips") {
 		SkipNow(vxNewT("TestK"))
 	}
